@@ -148,6 +148,8 @@ PROPS = {
             "Replicon.C13.C13_singleplayer",
             "Replicon.C13.C13_local_server_events",
             "Replicon.C13.C13_local_recipient",
+            "Replicon.C13.C13_history_local",
+            "Replicon.C13.C13_history_local_after_frame",
         ],
         "profiles": [{"name": "sys_evt", "shards": {"thorough": 8}}],
         "rule": SYS_RULE + LOCK + EVT_RULE + "For C13: oracles on the implementation: a server event is observed by the local game iff the local server is among its recipients (exactly once after the flush; a dedicated server is only required not to observe twice); an event the local game sends towards the server is observed by server-side logic with the SERVER identity when the app is not connected; a client app observes its own client event locally only if it never went on the wire (otherwise: known finding F13); nothing is observed twice.",
@@ -457,7 +459,7 @@ MANIFEST_TEXT = {
         "technique": "Lean 4 proof (theorems about executable models of the event buffers, queues and run conditions) + lock-step model/implementation correspondence on real traces + property oracle on the implementation",
     },
     "C13": {
-        "text": "Lean theorems about the event model: the run conditions of send and resend_locally are exclusive, so one path per frame (C13_conditions_exclusive, C13_one_path_per_frame); nothing goes on the network without a connection (C13_no_network_without_connection); over any history nothing is sent twice or re-emitted locally twice (C13_never_twice_on_a_path); the machine-checked F13 witness that one event can take both paths across a disconnect (C13_both_paths_F13) and the exactly-one-path theorem under the hypothesis it violates (C13_one_path_partial); singleplayer handles every event locally once (C13_singleplayer); a server event is re-emitted locally exactly when the local server is a recipient (C13_local_server_events, C13_local_recipient).",
+        "text": "Lean theorems about the event model: the run conditions of send and resend_locally are exclusive, so one path per frame (C13_conditions_exclusive, C13_one_path_per_frame); nothing goes on the network without a connection (C13_no_network_without_connection); over any history nothing is sent twice or re-emitted locally twice (C13_never_twice_on_a_path); the machine-checked F13 witness that one event can take both paths across a disconnect (C13_both_paths_F13) and the exactly-one-path theorem under the hypothesis it violates (C13_one_path_partial); singleplayer handles every event locally once (C13_singleplayer); a server event is re-emitted locally exactly when the local server is a recipient (C13_local_server_events, C13_local_recipient) — and over ALL histories of the joint server model (server running or not: singleplayer, listen server) the local game's observations are exactly the emitted events whose recipients include the local server, each once, in emission order (C13_history_local, C13_history_local_after_frame).",
         "design_ref": "DESIGN.md §7 C13",
         "note": "Known finding F13 is reported, tagged by the trace checker.",
         "technique": "Lean 4 proof (theorems about executable models of the event buffers, queues and run conditions) + lock-step model/implementation correspondence on real traces + property oracle on the implementation",
